@@ -7,7 +7,7 @@ Driver lanes of C08.
   `persistConn.mapRoundTripError`.
 * `c08retry <maxRetries> <k1,k2,…>` — `Request.do`'s retry decision on a scripted sequence of
   attempt results (`ok|canceled|deadline|other`): attempts made and the final result.
-* `c08life <stack> <tls> <bodyChunks> <respChunks> <maxRetries> <sleepFact> <events> <cancel> <obs>`
+* `c08life <stack> <tls> <bodyChunks> <respChunks> <maxRetries> <sleepFact> <autoRead> <events> <cancel> <obs>`
   — the lifecycle model: replay the environment events the harness observed before the
   injection point, cancel, explore EVERY maximal run of internal steps (then let a detached
   background dial finish and, if the wait ignores the context, let the timer fire), and answer
@@ -89,15 +89,26 @@ def parseEv (s : String) : Option Ev :=
   else if s == "sleepElapse" then some .sleepElapse
   else none
 
-/-- replay one observed event; the internal pick-up of a delivered connection is implicit -/
-def replay1 (cfg : Cfg) (s : St) (e : Ev) : Option St :=
-  if evGuard cfg s e then some (evApply cfg s e)
-  else if guard cfg s .deliver then
-    let s' := apply cfg s .deliver
-    if evGuard cfg s' e then some (evApply cfg s' e) else none
-  else none
+/-- a trace token: an environment event, or `inflight` = "the request is on its connection"
+(observed on h3, where the arrival of the request head at the peer is not a model event) -/
+inductive Tok | ev (e : Ev) | inflight
 
-def replay (cfg : Cfg) : St → List Ev → Option St
+def parseTok (s : String) : Option Tok :=
+  if s == "inflight" then some .inflight else (parseEv s).map .ev
+
+/-- replay one observed token; the internal pick-up of a delivered connection is implicit -/
+def replay1 (cfg : Cfg) (s : St) : Tok → Option St
+  | .ev e =>
+    if evGuard cfg s e then some (evApply cfg s e)
+    else if guard cfg s .deliver then
+      let s' := apply cfg s .deliver
+      if evGuard cfg s' e then some (evApply cfg s' e) else none
+    else none
+  | .inflight =>
+    if guard cfg s .deliver then some (apply cfg s .deliver)
+    else if s.phase.inflight || s.phase.body then some s else none
+
+def replay (cfg : Cfg) : St → List Tok → Option St
   | s, [] => some s
   | s, e :: es => match replay1 cfg s e with
     | some s' => replay cfg s' es
@@ -159,21 +170,34 @@ def Outcome.matches (obs m : Outcome) : Bool :=
   fieldMatch obs.rst m.rst && fieldMatch obs.sleeps m.sleeps
 
 def laneLife : List String → String
-  | stack :: tls :: bc :: rc :: mr :: fact :: evs :: cancel :: obs =>
-    match parseStack stack, bit tls, bc.toNat?, rc.toNat?, mr.toNat?, bit fact,
-          (if evs == "-" then some [] else (evs.splitOn ",").mapM parseEv), parseObs obs with
-    | some st, some tl, some b, some r, some m, some f, some es, some ob =>
+  | stack :: tls :: bc :: rc :: mr :: fact :: auto :: evs :: cancel :: obs =>
+    let racy := evs.endsWith "~"
+    let evs := if racy then (evs.dropEnd 1).toString else evs
+    match parseStack stack, bit tls, bc.toNat?, rc.toNat?, mr.toNat?, bit fact, bit auto,
+          (if evs == "-" then some [] else (evs.splitOn ",").mapM parseTok), parseObs obs with
+    | some st, some tl, some b, some r, some m, some f, some au, some es, some ob =>
       let cfg : Cfg := { stack := st, tls := tl, bodyChunks := b, respChunks := r, maxRetries := m,
-                         sleepSelectsCtx := f }
+                         sleepSelectsCtx := f, autoRead := au }
       let kind : Option CtxErr :=
         if cancel == "canceled" then some .canceled else if cancel == "deadline" then some .deadline
         else none
+      -- a trailing `~` on the trace: the response events were observed at the PEER (sent); the
+      -- client may lag behind by any number of them — every such state is explored
+      let isResp : Tok → Bool
+        | .ev .gotHeaders | .ev .gotBody => true
+        | _ => false
+      let nResp := (es.reverse.takeWhile isResp).length
+      let alts : List St := if racy then
+          (List.range nResp).filterMap fun k => replay cfg (init cfg) (es.take (es.length - (k + 1)))
+        else []
       match kind, replay cfg (init cfg) es with
       | some k, some s =>
         -- a connection delivered before the harness observed the next step may or may not have
         -- been picked up: both orders are explored (the pick-up is an internal action)
         if evGuard cfg s (.cancel k) then
-          let outs := (settle cfg 6 (evApply cfg s (.cancel k))).map (outcomeOf cfg s)
+          let outs := (s :: alts).flatMap fun t =>
+            if evGuard cfg t (.cancel k) then (settle cfg 6 (evApply cfg t (.cancel k))).map (outcomeOf cfg t)
+            else []
           match outs.find? (Outcome.matches ob) with
           | some _ => Outcome.show ob
           | none => match outs with
@@ -182,7 +206,7 @@ def laneLife : List String → String
         else "cancel-not-enabled"
       | none, _ => "bad-op"
       | _, none => "bad-trace"
-    | _, _, _, _, _, _, _, _ => "bad-op"
+    | _, _, _, _, _, _, _, _, _ => "bad-op"
   | _ => "bad-op"
 
 def lanes : List (String × (List String → String)) := [
